@@ -141,7 +141,14 @@ def _worker(job):
         rep = engine.run_symbolic(harness, label=inst["label"], **kw)
         d = rep.to_dict()
         d["samples"] = rep.samples
-        d["violations_full"] = [dict(name=v["name"], env=_ser_env(v["env"]), detail=v.get("detail"), goal=v.get("goal")) for v in rep.violations[:3]]
+        # candidates handed to the replay: up to two per distinct obligation (not simply the first three - the first ones found may all belong to one obligation whose
+        # candidates do not replay, hiding a later obligation whose candidates do), at most ten per instance
+        picked, per_name = [], {}
+        for v in rep.violations:
+            if per_name.get(v["name"], 0) < 2 and len(picked) < 10:
+                per_name[v["name"]] = per_name.get(v["name"], 0) + 1
+                picked.append(v)
+        d["violations_full"] = [dict(name=v["name"], env=_ser_env(v["env"]), detail=v.get("detail"), goal=v.get("goal")) for v in picked]
         d["exceptions_full"] = [dict(exc=list(e["exc"]), env=_ser_env(e["env"]), tb=e.get("tb")) for e in rep.exceptions[:3]]
         d["ok"] = rep.ok()
         d["inst"] = inst
